@@ -319,7 +319,8 @@ class Ctx:
 
 
 def parse_assumptions(out):
-    """split coqc stdout into one block per Print Assumptions"""
+    """split coqc stdout into one block per Print Assumptions (axiom names; a name may be printed alone on its
+    line with its type on the following, indented, lines)"""
     blocks = []; cur = None
     for line in out.split('\n'):
         if line.startswith('Closed under the global context'):
@@ -331,10 +332,14 @@ def parse_assumptions(out):
                 blocks.append(cur)
             cur = []
         elif cur is not None:
-            m = re.match(r'^([A-Za-z0-9_.\']+)\s*:', line)
+            if not line.strip():
+                continue
+            if line.startswith(' '):
+                continue                      # continuation of the previous axiom's type
+            m = re.match(r'^([A-Za-z_][A-Za-z0-9_.\']*)\s*(:.*)?$', line)
             if m:
                 cur.append(m.group(1))
-            elif line and not line.startswith(' '):
+            else:
                 blocks.append(cur); cur = None
     if cur is not None:
         blocks.append(cur)
